@@ -2,12 +2,13 @@
 
 Proof part : Properties/C12.lean — iglob = glob (definitional); trailing separator rule of
              `_format_path`; NODIR wiring + the no-directory regex rejects every directory candidate
-             (paths without newline) for every tree / part list / flag word; D16 / D18 / dir_fd witnesses.
+             for every tree / part list / flag word; dir_fd witness; `D18_D16_fixed_witness` (both repaired).
 Tie        : K5 — ONE model run (plus one with the `dir_fd` switch) against FIVE real runs of every
              case: root_dir as str, bytes and PathLike, dir_fd, and cwd (event sequences).
 Search     : on the real code, every result of every run: lexists, relative/absolute spelling,
              trailing separator ⇔ directory ∧ (pattern ended with a separator ∨ MARK), never a
-             directory under NODIR, iglob list = glob list, and the five runs return the same list.
+             directory under NODIR and no existing non-directory lost to NODIR, iglob list = glob list,
+             and the five runs return the same list.
 """
 from __future__ import annotations
 import os
@@ -137,9 +138,24 @@ def run(ck: Check) -> int:
                     found.append(Failing(f'result {r!r} ends with a separator although the pattern does not and MARK is off',
                                          c.to_json(G, t), r.rstrip('/'), r, 'wcmatch/glob.py:807-812'))
             if c.flags & G.NODIR and isdir:
-                kid = 'KF-D18' if '\n' in r else None
+                # no exemption: D18 (a directory whose path contains a newline survived) is repaired
                 report(Failing(f'directory {r!r} returned under NODIR', c.to_json(G, t), 'no directory', r,
-                               'wcmatch/_wcparse.py:95-102 (RE_NO_DIR without DOTALL)'), kid)
+                               'wcmatch/_wcparse.py:95-102 (RE_NO_DIR)'), None)
+        if c.flags & G.NODIR:
+            # the other direction (D16, repaired: the Windows regex took a final backslash for a separator):
+            # NODIR removes directories only — every existing non-directory returned without NODIR is still returned
+            stats['nodir_vs_plain'] = stats.get('nodir_vs_plain', 0) + 1
+            try:
+                kw = {'exclude': c.exclude} if c.exclude is not None else {}
+                plain = G.glob(c.pats, flags=c.flags & ~G.NODIR, root_dir=t.root, **kw)
+            except Exception:  # noqa: BLE001
+                plain = []
+            have = set(res)
+            for r in plain:
+                full = r if r.startswith('/') else os.path.join(t.root, r)
+                if r not in have and not r.endswith('/') and os.path.lexists(full) and not os.path.isdir(full):
+                    report(Failing(f'non-directory {r!r} is dropped by NODIR', c.to_json(G, t), r, 'absent',
+                                   'wcmatch/glob.py:457-458, 467-468 (re_no_dir)'), None)
 
     def s_k5(sr):
         sr.note = ('K5: every case run five times on the real code (root_dir str / bytes / PathLike, dir_fd, cwd) against the '
